@@ -902,7 +902,7 @@ def http_session(S):
         return SObj(None, kind="Reader")
 
     H["_open_response_stream"] = open_resp
-    H["_drain_stream"] = lambda S, r: (raise_(pa.ArrowInvalid, "garbage") if S.choose(2) == 1 else None)
+    H["_drain_stream"] = lambda S, r, *a: (raise_(pa.ArrowInvalid, "garbage") if S.choose(2) == 1 else None)
     H["_read_batch_with_log_check"] = lambda S, reader, on_log=None, external_config=None, shm=None: SObj(None, kind="AB", batch=SObj(None, kind="Batch", tag="response"), custom_metadata=None)
     H["strip_keys"] = lambda S, md, *keys: md
     S.inline.update({"HttpStreamSession._token_metadata", "dataclass:AnnotatedBatch"})
